@@ -196,6 +196,18 @@ func vC40HlsCaseRun(r *vRand) (string, map[string]any, string) {
 	}()
 	idle := func(o vC40HlsObs) bool { return o.pm == "idle" && o.hs == "idle" && o.muxInit+o.muxPath == 0 }
 	const limit = 8 * time.Second
+	// an INTERMEDIATE stage that is not reached in time is a failure to force the schedule (e.g. the always-remux
+	// muxers of the other paths are re-created after their 10 s pause while pathManager.run is held, on a slow run),
+	// not a verdict: everything is released; if the system then winds down the scenario is not judged, if it does
+	// not it is reported as stuck like a failed final stage
+	notForced := func() (string, map[string]any, string) {
+		h.gates.releaseAll()
+		if _, ok := vC40HlsWait(h, "recover", limit, idle); ok {
+			return "", map[string]any{"level": "hls", "other_paths": k, "api": api, "segments": c.dsegs,
+				"note": "schedule not forced (an intermediate stage was not reached in time); released, wound down"}, "NOT-FORCED:" + class
+		}
+		return finish()
+	}
 
 	// publishers on k dynamic paths: a muxer is created for each, attaches, finds no supported codec and goes
 	var pubs []int
@@ -226,7 +238,7 @@ func vC40HlsCaseRun(r *vRand) (string, map[string]any, string) {
 	case <-g1.entered:
 	case <-time.After(limit):
 		c.seg(vC40HlsObserve(h), nil, false, true, "createMuxer(st) not reached")
-		return finish()
+		return notForced()
 	}
 	c.call()
 	c.do(fmt.Sprintf("LNotify %d", k))
@@ -237,7 +249,7 @@ func vC40HlsCaseRun(r *vRand) (string, map[string]any, string) {
 	o, ok = vC40HlsWait(h, "create", limit, func(o vC40HlsObs) bool { return o.pm == "idle" && o.hs == "create" })
 	c.seg(o, []string{"FHs"}, true, !ok, "hls.Server.run held inside createMuxer")
 	if !ok {
-		return finish()
+		return notForced()
 	}
 
 	g2 := h.gates.arm(vC40NewGate("auth:tog", ""))
@@ -246,7 +258,7 @@ func vC40HlsCaseRun(r *vRand) (string, map[string]any, string) {
 	case <-g2.entered:
 	case <-time.After(limit):
 		c.seg(vC40HlsObserve(h), nil, false, true, "pathManager.run did not reach the authentication")
-		return finish()
+		return notForced()
 	}
 	c.do("LCall")
 	c.do("LPmRecvCall")
@@ -259,7 +271,7 @@ func vC40HlsCaseRun(r *vRand) (string, map[string]any, string) {
 	o, ok = vC40HlsWait(h, "muxer", limit, func(o vC40HlsObs) bool { return o.muxInit == 1 && o.hs == "idle" })
 	c.seg(o, []string{"FPm"}, true, !ok, "muxer st holds its mutex inside pathManager.AddReader")
 	if !ok {
-		return finish()
+		return notForced()
 	}
 
 	h.callRemovePublisher(pst, "pst")
@@ -289,7 +301,7 @@ func vC40HlsCaseRun(r *vRand) (string, map[string]any, string) {
 	time.Sleep(10 * time.Millisecond)
 	c.seg(o, []string{"FPm"}, true, !ok, "hls.Server.run at the muxer's mutex")
 	if !ok {
-		return finish()
+		return notForced()
 	}
 
 	close(g2.release)
